@@ -7,12 +7,13 @@
 # (`build/driver`) and prints per stream: operations, observation lines, differing lines.
 #   KRP_HARNESS=<binary>  another harness build (pristine / mutated copy of the contracts)
 #   JOBS=6  parallel runs     OUT=<dir>  work directory (default build/querydiff)
-#   STREAMS="scenarios grid profiles"  subset to run
+#   STREAMS="scenarios grid profiles"  subset to run     PROFILES="token rewards"  SHARDS=16
 ROOT="$(cd "$(dirname "$0")/.." && pwd)"
 H=${KRP_HARNESS:-$ROOT/build/harness-target/release/krp-harness}; D=${KRP_DRIVER:-$ROOT/build/driver}
 OUT=${OUT:-$ROOT/build/querydiff}; JOBS=${JOBS:-6}; STREAMS=${STREAMS:-"scenarios grid profiles"}
 SEEDS="${*:-1 2}"
-PROFILES="general pricing unbond rewards registry token config pause exit synth"
+PROFILES=${PROFILES:-"general pricing unbond rewards registry token config pause exit synth"}
+SHARDS=${SHARDS:-16}
 rm -rf "$OUT"; mkdir -p "$OUT"
 export H D OUT
 
@@ -37,7 +38,7 @@ export -f one
       scenarios) for f in "$ROOT"/scenarios/*.ops; do echo "scenario.$(basename "$f" .ops) run $f"; done ;;
       grid) echo "grid grid" ;;
       profiles)
-        for S in $SEEDS; do for p in $PROFILES; do for s in $(seq 0 15); do
+        for S in $SEEDS; do for p in $PROFILES; do for s in $(seq 0 $((SHARDS-1))); do
           if [ $p = synth ]; then echo "seed$S.$p.$s gen $p $((S*1000+s)) 6 14"
           else echo "seed$S.$p.$s gen $p $((S*1000+s)) 10 40"; fi
         done; done; done ;;
